@@ -281,6 +281,87 @@ fn env_stream(w: &mut EnvW, stream: &[u8], ns: &[usize], full_comp_upto: usize, 
     }
 }
 
+
+// ------------------------------------------- over-long sound messages (sweep)
+
+/// Every token string over `lex::SIGMA_PAYLOAD` that is one sound message, sent through a
+/// buffer it does not fit into, followed by `B?`: only `B?` may run.
+#[derive(Default)]
+struct OverSweep {
+    groups: Groups,
+    strings: u64,
+    sound: u64,
+    sound_with_inner_newline: u64,
+    execs: u64,
+}
+
+fn over_sweep_case(x: &[u8], w: Option<&mut OverSweep>) -> Vec<(usize, Vec<usize>, String)> {
+    let mut found = vec![];
+    let mut y = x.to_vec();
+    y.extend_from_slice(b"B?\n");
+    let mut i = Main;
+    let mut wr = RecW::unbounded();
+    let o = run_on(&mut i, &y, &mut wr, Pattern::NONE);
+    let ok = o.end == End::Returned
+        && log::with(|l| l.ev.iter().all(|e| e.k != K::Err) && l.ev.iter().filter(|e| e.k == K::Enter).last().map(|e| l.data(e) == b"B?()").unwrap_or(false));
+    if !ok || mc::mainx::first_message_end(&y) != Some(x.len()) {
+        return found;
+    }
+    let inner = x[..x.len() - 1].contains(&b'\n');
+    let mut execs = 1u64;
+    for &n in runx::N_ALL.iter().filter(|&&n| n >= 3 && n < x.len()) {
+        for sizes in [vec![y.len()], env::regular(y.len(), 1), env::regular(y.len(), n), env::regular(y.len(), 3)] {
+            let o = proc_case(n, &y, &sizes);
+            execs += 1;
+            if o.end != End::Returned {
+                continue;
+            }
+            let (calls, outb) = log::with(|l| (l.ev.iter().filter(|e| e.k == K::Enter).map(|e| l.data(e).to_vec()).collect::<Vec<_>>(), l.concat(K::TWrite)));
+            if calls != vec![b"B?()".to_vec()] || outb != b"7\n" {
+                found.push((
+                    n,
+                    sizes.clone(),
+                    format!(
+                        "process::<{n}>(\"{}\") read sizes {:?}: the first message is sound but longer than the buffer and can only be discarded, but handlers {:?} ran and \"{}\" was written (expected: only B?() of the second message, output \"7\\n\")",
+                        show(&y), sizes, calls.iter().map(|c| show(c)).collect::<Vec<_>>(), show(&outb)
+                    ),
+                ));
+            }
+        }
+    }
+    if let Some(w) = w {
+        w.sound += 1;
+        w.execs += execs;
+        if inner {
+            w.sound_with_inner_newline += 1;
+        }
+    }
+    found
+}
+
+impl Visitor for OverSweep {
+    fn visit(&mut self, x: &[u8], _ntok: usize, _last: usize) {
+        self.strings += 1;
+        if x.last() != Some(&b'\n') || x.len() < 4 {
+            return;
+        }
+        let x = x.to_vec();
+        for (n, sizes, desc) in over_sweep_case(&x, Some(self)) {
+            let inner = x[..x.len() - 1].contains(&b'\n');
+            let feat = vec![
+                ("engine", "process".to_string()),
+                ("kind", "part-of-an-oversized-message-is-executed".to_string()),
+                ("detail", format!("sound message of the lexeme sweep, newline inside a payload: {inner}")),
+            ];
+            let mut stream = x.clone();
+            stream.extend_from_slice(b"B?\n");
+            self.groups.add("crash-freedom", &feat, (stream.len() * 1000 + n, &stream), || {
+                (json!({"engine": "process-oversize", "n": n, "stream": hex(&stream), "sizes": sizes}), desc.clone())
+            });
+        }
+    }
+}
+
 // -------------------------------------------------------------------- replay
 
 fn replay(path: &str) -> ! {
@@ -735,6 +816,20 @@ fn main() {
             }
         }
     }
+    // (e) the same for every sound message of the lexeme sweep that does not fit the buffer
+    let over_len = if thorough { 7 } else { 6 };
+    let mut os = OverSweep::default();
+    for w in lex::sweep(lex::SIGMA_PAYLOAD, over_len, args.threads, args.seed, OverSweep::default, |_, _, _| {}, 600, |p, k| {
+        println!("HANG engine=over-sweep partition={p} case={k}");
+        std::process::exit(3);
+    }) {
+        out.groups.merge(w.groups);
+        os.strings += w.strings;
+        os.sound += w.sound;
+        os.sound_with_inner_newline += w.sound_with_inner_newline;
+        os.execs += w.execs;
+    }
+    over_execs += os.execs;
     if overflow > 0 {
         out.machinery_errors.push(format!("event log overflowed in {overflow} executions"));
     }
@@ -763,7 +858,10 @@ fn main() {
             "lex_run_other_writers": {"max_tokens": lex2_len, "writers": writers2.iter().map(|w| w.json()).collect::<Vec<_>>(), "executions": lex2_execs},
             "lex_run_second_alphabet": {"alphabet": lex::sigma_alt_json(), "max_tokens": lex3_len, "writers": lw3.iter().map(|w| w.json()).collect::<Vec<_>>(), "strings": lex3_cases, "executions": lex3_execs},
             "lexeme_strings_on_lexi": {"alphabet": lex::sigma_lexeme_json(), "max_tokens": lexeme_len, "executions": lexeme_execs},
-            "oversized_messages": {"messages": 10, "with_newlines_inside_a_string_or_block": 5, "N": "every instantiated N below the message length", "around": "3 fitting messages in front x 3 behind (also with payload newlines)", "oracle": "nothing of the oversized message is executed, the messages around it are executed as on their own", "executions": over_execs},
+            "oversized_messages": {"messages": 10, "with_newlines_inside_a_string_or_block": 5, "N": "every instantiated N below the message length", "around": "3 fitting messages in front x 3 behind (also with payload newlines)", "oracle": "nothing of the oversized message is executed, the messages around it are executed as on their own", "executions": over_execs,
+                "lexeme_sweep": {"alphabet": "lex::SIGMA_PAYLOAD (19 lexemes: headers taking strings / blocks, quotes, block headers incl. zero-padded and empty, payload bytes, separators)", "max_tokens": over_len,
+                    "token_strings": os.strings, "sound_single_messages": os.sound, "of_these_with_a_newline_inside_a_payload": os.sound_with_inner_newline,
+                    "N": "every instantiated N with 3 <= N < message length", "chunkings": "one read, 1 / 3 / N bytes per read"}},
             "long_numeric_fields": {"digits": "1..=40 in mantissa, fraction, exponent, radix literals, block length", "parameter_types": 15, "executions": long_execs},
             "many_parameters": {"headers": 9, "literal_kinds": 6, "parameters": "0..=16", "executions": many_execs},
             "capacity_sweep": {"messages": msgs.len(), "capacities": "recorder 0..=64, heapless {0,1,2,8,9,16,41,64}", "executions": cap_execs},
